@@ -79,7 +79,8 @@ def linear_fluxes(S, rep, tier):
         ex, _ = interiors(S, find_entry(g))
         for c in range(3):
             chk("%s component %d" % (g[4:-15], c), ex[comp("vorticity_field", c)] - at(comp("vorticity_field", c), zero(3)))
-    orders = (1, 2) if tier == "quick" else (1, 2, 3, 4, 5)
+    from .common import filter_orders
+    orders = filter_orders(tier, "scalar")
     for ft in ("multiplicative", "convolution"):
         for o in orders:
             ex, sm = interiors(S, find_entry("gen_laplacian_filter_kernel_3d", field_type="scalar", filter_type=ft, filter_order=o))
